@@ -1066,6 +1066,11 @@ func Gen(r *vk.Run, n int) error {
 		if err := runHistory(r, &g, seed, cfg); err != nil {
 			return err
 		}
+		if r.Stats["abandoned-engine"] >= 3 {
+			// calls keep hanging: stop here, the findings collected so far are reported
+			r.Finding(fmt.Sprintf("C19 generation stopped after %d histories: three engines had to be abandoned because a call did not return", i+1))
+			break
+		}
 	}
 	return nil
 }
